@@ -16,6 +16,38 @@ use std::time::{Duration, Instant};
 pub struct LinkActor {
     pub start: Vec<(usize, u8)>,
     pub on_recv: BTreeMap<u8, Vec<(usize, u8)>>,
+    /// Payloads whose hand-over is answered *without touching the state* (a stateless relay /
+    /// echo server): the reaction is sent, nothing is logged. Every quiet payload has a
+    /// non-empty reaction, so the handler is never a no-op.
+    pub quiet: BTreeSet<u8>,
+}
+
+/// What the wrapped actors' handlers were actually asked to do, recorded at the handler boundary
+/// (the boundary the property speaks about) while the monitor re-executes the chosen step.
+#[derive(Clone, Debug, PartialEq, Eq)]
+pub enum Ev {
+    Handed { actor: usize, src: usize, payload: u8 },
+    Sent { actor: usize, dst: usize, payload: u8 },
+}
+
+thread_local! {
+    static REC: std::cell::RefCell<Option<Vec<Ev>>> = const { std::cell::RefCell::new(None) };
+}
+
+fn rec(ev: Ev) {
+    REC.with(|r| {
+        if let Some(v) = r.borrow_mut().as_mut() {
+            v.push(ev);
+        }
+    });
+}
+
+/// Runs `f` with the recorder on and returns what the handlers did meanwhile.
+pub fn recorded<T>(f: impl FnOnce() -> T) -> (T, Vec<Ev>) {
+    REC.with(|r| *r.borrow_mut() = Some(Vec::new()));
+    let out = f();
+    let evs = REC.with(|r| r.borrow_mut().take()).unwrap_or_default();
+    (out, evs)
 }
 
 #[derive(Clone, Debug, PartialEq, Eq, Hash, PartialOrd, Ord)]
@@ -29,21 +61,33 @@ impl Actor for LinkActor {
     type Timer = ();
     type Random = ();
     type State = LState;
-    fn on_start(&self, _id: Id, o: &mut Out<Self>) -> LState {
+    fn on_start(&self, id: Id, o: &mut Out<Self>) -> LState {
         let mut st = LState { sent: Vec::new(), handed: Vec::new() };
         for (d, m) in &self.start {
             o.send(Id::from(*d), *m);
             st.sent.push((*d, *m));
+            rec(Ev::Sent { actor: usize::from(id), dst: *d, payload: *m });
         }
         st
     }
-    fn on_msg(&self, _id: Id, state: &mut Cow<LState>, src: Id, msg: u8, o: &mut Out<Self>) {
+    fn on_msg(&self, id: Id, state: &mut Cow<LState>, src: Id, msg: u8, o: &mut Out<Self>) {
+        let me = usize::from(id);
+        rec(Ev::Handed { actor: me, src: usize::from(src), payload: msg });
+        if self.quiet.contains(&msg) {
+            // stateless: react, leave the state borrowed
+            for (d, m) in &self.on_recv[&msg] {
+                o.send(Id::from(*d), *m);
+                rec(Ev::Sent { actor: me, dst: *d, payload: *m });
+            }
+            return;
+        }
         let st = state.to_mut();
         st.handed.push((usize::from(src), msg));
         if let Some(sends) = self.on_recv.get(&msg) {
             for (d, m) in sends {
                 o.send(Id::from(*d), *m);
                 st.sent.push((*d, *m));
+                rec(Ev::Sent { actor: me, dst: *d, payload: *m });
             }
         }
     }
@@ -61,12 +105,14 @@ pub struct LinkSystem {
 
 fn gen_link_system(rng: &mut Rng) -> LinkSystem {
     let n = rng.range(2, 3);
+    // two systems in five contain stateless reactions
+    let quiet_allowed = rng.pct(40);
     let mut next_payload = 0u8;
     let mut fresh = |_: &mut Rng| {
         next_payload += 1;
         next_payload
     };
-    let mut actors: Vec<LinkActor> = (0..n).map(|_| LinkActor { start: Vec::new(), on_recv: BTreeMap::new() }).collect();
+    let mut actors: Vec<LinkActor> = (0..n).map(|_| LinkActor { start: Vec::new(), on_recv: BTreeMap::new(), quiet: BTreeSet::new() }).collect();
     // senders emit 2-5 messages at start, to one or several peers
     let senders = rng.range(1, n);
     let mut all_payloads: Vec<(usize, u8)> = Vec::new(); // (receiver, payload)
@@ -84,7 +130,7 @@ fn gen_link_system(rng: &mut Rng) -> LinkSystem {
     // reactions: being handed some payload triggers further sends (bounded: fresh payloads do
     // not trigger anything themselves)
     for (receiver, p) in all_payloads.clone() {
-        if rng.pct(30) {
+        if rng.pct(if quiet_allowed { 55 } else { 30 }) {
             let k = rng.range(1, 2);
             let mut sends = Vec::new();
             for _ in 0..k {
@@ -92,6 +138,9 @@ fn gen_link_system(rng: &mut Rng) -> LinkSystem {
                 sends.push((d, fresh(rng)));
             }
             actors[receiver].on_recv.insert(p, sends);
+            if quiet_allowed && rng.pct(50) {
+                actors[receiver].quiet.insert(p);
+            }
         }
     }
     LinkSystem { actors }
@@ -103,10 +152,13 @@ impl LinkSystem {
             .actors(self.actors.iter().cloned().map(ActorWrapper::with_default_timeout))
             .init_network(Network::new_unordered_duplicating([]))
             .lossy_network(LossyNetwork::Yes)
-            .property(Expectation::Always, "handed is a prefix of sent; nothing discarded before hand-over", |_, s| check_state(s).is_ok())
+            .property(Expectation::Always, "handed is a prefix of sent; nothing discarded before hand-over", |m, s| {
+                let quiet: Vec<BTreeSet<u8>> = m.actors.iter().map(|a| a.wrapped_actor.quiet.clone()).collect();
+                check_state(s, &quiet).is_ok()
+            })
     }
     fn to_json(&self) -> Value {
-        json!(self.actors.iter().map(|a| json!({"start": a.start, "on_recv": format!("{:?}", a.on_recv)})).collect::<Vec<_>>())
+        json!(self.actors.iter().map(|a| json!({"start": a.start, "on_recv": format!("{:?}", a.on_recv), "stateless_on": a.quiet})).collect::<Vec<_>>())
     }
 }
 
@@ -120,9 +172,36 @@ pub struct LinkViolation {
     pub pending: Vec<u8>,
 }
 
-/// The two safety clauses of the property, evaluated on one state (first violation).
-pub fn check_state(s: &LModelState) -> Result<(), LinkViolation> {
-    match check_state_all(s).into_iter().next() {
+/// The send and hand-over logs the clauses are evaluated on: per actor, everything it emitted
+/// `(dst, payload)` in emission order and everything it was handed `(src, payload)` in order.
+#[derive(Clone, Debug, Default, PartialEq, Eq)]
+pub struct Logs {
+    pub sent: Vec<Vec<(usize, u8)>>,
+    pub handed: Vec<Vec<(usize, u8)>>,
+}
+
+impl Logs {
+    /// The logs the wrapped actors keep in their own state (incomplete for stateless reactions).
+    pub fn from_state(s: &LModelState) -> Logs {
+        Logs {
+            sent: s.actor_states.iter().map(|a| a.verif_wrapped_state().sent.clone()).collect(),
+            handed: s.actor_states.iter().map(|a| a.verif_wrapped_state().handed.clone()).collect(),
+        }
+    }
+    pub fn apply(&mut self, evs: &[Ev]) {
+        for ev in evs {
+            match ev {
+                Ev::Handed { actor, src, payload } => self.handed[*actor].push((*src, *payload)),
+                Ev::Sent { actor, dst, payload } => self.sent[*actor].push((*dst, *payload)),
+            }
+        }
+    }
+}
+
+/// The two safety clauses of the property, evaluated on one state from the logs kept in the
+/// wrapped actors' states (first violation). `quiet[i]` = payloads actor i answers statelessly.
+pub fn check_state(s: &LModelState, quiet: &[BTreeSet<u8>]) -> Result<(), LinkViolation> {
+    match check_logs(s, &Logs::from_state(s), Some(quiet)).into_iter().next() {
         Some(v) => Err(v),
         None => Ok(()),
     }
@@ -130,30 +209,36 @@ pub fn check_state(s: &LModelState) -> Result<(), LinkViolation> {
 
 /// All violations of the two safety clauses at one state, one per (sender, receiver) pair,
 /// classified from the most specific to the least.
-pub fn check_state_all(s: &LModelState) -> Vec<LinkViolation> {
+///
+/// With `quiet == None` the logs are complete (recorded at the handler boundary). With
+/// `Some(quiet)` they come from the actors' own states and lack what stateless reactions did:
+/// a sender with stateless reactions is then only judged on duplicates at its receivers (its
+/// send log is incomplete; a duplicate still shows that it was handed something twice, because
+/// payloads are globally unique and every reaction is emitted once per hand-over), and payloads
+/// the receiver answers statelessly are projected away (a prefix stays a prefix under projection).
+pub fn check_logs(s: &LModelState, logs: &Logs, quiet: Option<&[BTreeSet<u8>]>) -> Vec<LinkViolation> {
     let mut out = Vec::new();
     let n = s.actor_states.len();
     for sender in 0..n {
         let ss = &s.actor_states[sender];
         let pending: Vec<(u64, usize, u8)> = ss.verif_pending_ack().into_iter().map(|(q, d, m)| (q, usize::from(d), *m)).collect();
+        let sender_incomplete = quiet.map(|q| !q[sender].is_empty()).unwrap_or(false);
         for receiver in 0..n {
             if receiver == sender {
                 continue;
             }
-            let sent: Vec<u8> = ss.verif_wrapped_state().sent.iter().filter(|(d, _)| *d == receiver).map(|(_, m)| *m).collect();
-            let handed: Vec<u8> = s.actor_states[receiver]
-                .verif_wrapped_state()
-                .handed
-                .iter()
-                .filter(|(src, _)| *src == sender)
-                .map(|(_, m)| *m)
-                .collect();
-            let pend: Vec<u8> = pending.iter().filter(|(_, d, _)| *d == receiver).map(|(_, _, m)| *m).collect();
+            let hidden = |m: &u8| quiet.map(|q| q[receiver].contains(m)).unwrap_or(false);
+            let sent: Vec<u8> = logs.sent[sender].iter().filter(|(d, m)| *d == receiver && !hidden(m)).map(|(_, m)| *m).collect();
+            let handed: Vec<u8> = logs.handed[receiver].iter().filter(|(src, _)| *src == sender).map(|(_, m)| *m).collect();
+            let pend: Vec<u8> = pending.iter().filter(|(_, d, m)| *d == receiver && !hidden(m)).map(|(_, _, m)| *m).collect();
             let mk = |what| LinkViolation { what, sender, receiver, sent: sent.clone(), handed: handed.clone(), pending: pend.clone() };
             // classify from the most specific to the least
             let distinct: BTreeSet<u8> = handed.iter().copied().collect();
             if distinct.len() != handed.len() {
                 out.push(mk("message-handed-over-twice"));
+                continue;
+            }
+            if sender_incomplete {
                 continue;
             }
             if handed.iter().any(|m| !sent.contains(m)) {
@@ -183,8 +268,9 @@ pub fn check_state_all(s: &LModelState) -> Vec<LinkViolation> {
 /// Is this violation the recorded finding (a message overtaken by one with a higher sequencer is
 /// acknowledged, discarded by the sender and never handed over)? True iff the hand-over sequence
 /// is duplicate-free and in order, and every skipped message has a sequencer below the last one
-/// handed over at the receiver.
-fn is_overtaking_finding(s: &LModelState, v: &LinkViolation) -> bool {
+/// handed over at the receiver. `logs.sent[sender]` must be complete (it is whenever a `gap:`
+/// clause was judged at all).
+fn is_overtaking_finding(s: &LModelState, v: &LinkViolation, logs: &Logs) -> bool {
     if !v.what.starts_with("gap:") {
         return false;
     }
@@ -195,7 +281,7 @@ fn is_overtaking_finding(s: &LModelState, v: &LinkViolation) -> bool {
         .map(|(_, q)| q)
         .unwrap_or(0);
     // sequencers are assigned in emission order over all peers: recover them from the send log
-    let all_sent = &s.actor_states[v.sender].verif_wrapped_state().sent;
+    let all_sent = &logs.sent[v.sender];
     let seq_of = |m: u8| all_sent.iter().position(|(_, x)| *x == m).map(|i| i as u64 + 1).unwrap_or(u64::MAX);
     v.sent
         .iter()
@@ -209,8 +295,8 @@ fn is_overtaking_finding(s: &LModelState, v: &LinkViolation) -> bool {
 
 const FINDING: &str = "C16/link/message-overtaken-by-a-higher-sequencer-is-acknowledged-and-never-handed-over";
 
-fn report(case: &Case, sys: &LinkSystem, s: &LModelState, v: &LinkViolation, trace: &[String], via: &str) {
-    let signature = if is_overtaking_finding(s, v) {
+fn report(case: &Case, sys: &LinkSystem, s: &LModelState, v: &LinkViolation, logs: &Logs, trace: &[String], via: &str) {
+    let signature = if is_overtaking_finding(s, v, logs) {
         FINDING.to_string()
     } else {
         format!("C16/link/{}", v.what)
@@ -235,26 +321,52 @@ fn walk_case(case: &mut Case) {
     case.sample(|| sys.to_json());
     let profile = case.rng.below(5); // 0 reorder hard, 1 duplicate/resend, 2 drop-heavy, 3 uniform, 4 in-order with duplicates and loss
     let mut deliveries = 0;
+    let mut hand_overs = 0u64;
+    let mut stateless_hand_overs = 0u64;
     let mut reordered = false;
     let mut finding_reported = false;
+    let quiet: Vec<BTreeSet<u8>> = sys.actors.iter().map(|a| a.quiet.clone()).collect();
+    let any_quiet = quiet.iter().any(|q| !q.is_empty());
     for _ in 0..3 {
-        let mut s = model.init_states().into_iter().next().unwrap();
+        // the logs are recorded at the wrapped actors' handler boundary while the chosen step
+        // is re-executed; start-up counts
+        let (inits, evs) = recorded(|| model.init_states());
+        let mut s = inits.into_iter().next().unwrap();
+        let mut logs = Logs { sent: vec![Vec::new(); sys.actors.len()], handed: vec![Vec::new(); sys.actors.len()] };
+        logs.apply(&evs);
         let mut trace: Vec<String> = Vec::new();
         let mut last_seq: BTreeMap<(Id, Id), u64> = BTreeMap::new();
         for _ in 0..case.rng.range(20, 70) {
             case.add("states_monitored", 1);
-            let violations = check_state_all(&s);
+            let violations = check_logs(&s, &logs, None);
             // anything that is not the recorded finding ends the case; the recorded finding is
             // reported once and the walk goes on, so that other violations stay observable
-            if let Some(v) = violations.iter().find(|v| !is_overtaking_finding(&s, v)) {
-                report(case, &sys, &s, v, &trace, "hostile walk");
+            if let Some(v) = violations.iter().find(|v| !is_overtaking_finding(&s, v, &logs)) {
+                report(case, &sys, &s, v, &logs, &trace, "hostile walk");
                 case.distinct(crate::ctx::hash_of(&format!("{:?}", sys.actors)), true);
                 return;
             }
             if let Some(v) = violations.first() {
                 if !finding_reported {
                     finding_reported = true;
-                    report(case, &sys, &s, v, &trace, "hostile walk");
+                    report(case, &sys, &s, v, &logs, &trace, "hostile walk");
+                }
+            }
+            // the state-kept logs must be what the handlers produced (all of it when no reaction
+            // is stateless): the link may not lose or alter the wrapped actor's state
+            if !any_quiet && Logs::from_state(&s) != logs {
+                case.violation(
+                    "C16/link/wrapped-actor-state-differs-from-what-its-handlers-produced",
+                    json!({"system": sys.to_json(), "state_logs": format!("{:?}", Logs::from_state(&s)), "handler_logs": format!("{:?}", logs), "trace": trace}),
+                );
+                return;
+            }
+            // and the state-based reading used by the checker sub-check must never be stricter
+            // than the complete logs (soundness of the projection for stateless reactions)
+            if any_quiet && violations.is_empty() {
+                if let Err(v) = check_state(&s, &quiet) {
+                    case.inconclusive(&format!("state-based reading reports '{}' where the complete logs are clean (harness defect)", v.what));
+                    return;
                 }
             }
             let steps = model.next_steps(&s);
@@ -300,7 +412,20 @@ fn walk_case(case: &mut Case) {
                 }
                 pick -= w;
             }
-            let (a, next) = steps.into_iter().nth(idx).unwrap();
+            let (a, _) = steps.into_iter().nth(idx).unwrap();
+            // re-execute the chosen step with the recorder on
+            let (next, evs) = recorded(|| model.next_state(&s, a.clone()));
+            let Some(next) = next else {
+                case.inconclusive("chosen step could not be re-executed");
+                return;
+            };
+            if evs.iter().any(|e| matches!(e, Ev::Handed { .. })) {
+                hand_overs += 1;
+                if evs.iter().any(|e| matches!(e, Ev::Handed { actor, payload, .. } if quiet[*actor].contains(payload))) {
+                    stateless_hand_overs += 1;
+                }
+            }
+            logs.apply(&evs);
             if let ActorModelAction::Deliver { src, dst, msg: MsgWrapper::Deliver(q, _) } = &a {
                 deliveries += 1;
                 let e = last_seq.entry((*src, *dst)).or_insert(0);
@@ -315,6 +440,11 @@ fn walk_case(case: &mut Case) {
         }
     }
     case.add(&format!("walk_profile_{}", profile), 1);
+    case.add("hand_overs_observed", hand_overs);
+    case.add("stateless_hand_overs_observed", stateless_hand_overs);
+    if any_quiet {
+        case.add("walks_with_stateless_reactions", 1);
+    }
     case.distinct(crate::ctx::hash_of(&format!("{:?}", sys.actors)) ^ profile as u64, deliveries >= 4 && (reordered || profile == 4));
 }
 
@@ -346,8 +476,9 @@ fn checker_case(case: &mut Case) {
     if let Some((_, path)) = discovery {
         let s = path.last_state().clone();
         let trace: Vec<String> = path.into_actions().iter().map(|a| format!("{:?}", a)).collect();
-        match check_state(&s) {
-            Err(v) => report(case, &sys, &s, &v, &trace, "breadth-first check of the always-property"),
+        let quiet: Vec<BTreeSet<u8>> = sys.actors.iter().map(|a| a.quiet.clone()).collect();
+        match check_state(&s, &quiet) {
+            Err(v) => report(case, &sys, &s, &v, &Logs::from_state(&s), &trace, "breadth-first check of the always-property"),
             Ok(()) => case.inconclusive("checker reported a counterexample whose last state satisfies the monitor"),
         }
     }
